@@ -43,10 +43,12 @@ pub fn creds(c: u8) -> Creds {
         },
         _ => Creds {
             user: "\u{30de}\u{30c8}\u{30ea}\u{30c3}\u{30af}\u{30b9}",
-            pass: "p\u{a0}w",
-            other_pass: "p\u{a0}x",
-            pass_key: "p w",
-            other_pass_key: "p x",
+            // (long enough that its bytes cannot turn up in a random transaction id or MAC by chance: C08 searches every
+            // packet for the password)
+            pass: "correct\u{a0}horse\u{a0}battery",
+            other_pass: "correct\u{a0}horse\u{a0}batterz",
+            pass_key: "correct horse battery",
+            other_pass_key: "correct horse batterz",
         },
     }
 }
